@@ -71,6 +71,17 @@ def check(repo: Repo, rep: Report) -> None:
         TC_.check_operator(repo, rep, "K1-signature", O + key_,
                            lambda k, slot: "A source factory emits exactly its specified notifications: elements, then one terminal notification, "
                                            "and nothing after an error it reported.")
+    rep.rule("Y7-no-shortcut", "a primitive source factory has one result: the observable built from its subscribe function (no argument-dependent early return)", floor=9)
+    for rel_, q_ in (("range.py", "range_"), ("fromiterable.py", "from_iterable_"), ("generate.py", "generate_"), ("generatewithrelativetime.py", "generate_with_relative_time_"),
+                     ("returnvalue.py", "return_value_"), ("returnvalue.py", "from_callable_"), ("empty.py", "empty_"), ("throw.py", "throw_"), ("never.py", "never_"),
+                     ("timer.py", "observable_timer_date"), ("timer.py", "observable_timer_duetime_and_period"), ("timer.py", "observable_timer_timespan")):
+        ff = repo.fn(O + rel_, q_)
+        rets_ = [n_ for n_ in ff.direct_nodes() if isinstance(n_, ast.Return)]
+        ok_ = len(rets_) == 1 and isinstance(rets_[0].value, ast.Call) and call_name(rets_[0].value) == "Observable" and len(rets_[0].value.args) == 1 \
+            and isinstance(rets_[0].value.args[0], ast.Name) and ff.child(rets_[0].value.args[0].id) is not None
+        rep.ob("Y7-no-shortcut", ff, f"{q_}: returns {[short(r_.value, 40) for r_ in rets_]}", ok_,
+               f"{q_} has a result other than Observable(<its subscribe function>): an early return decided on the argument values replaces the "
+               f"specified sequence for some arguments (e.g. an 'empty range' shortcut that ignores the sign of the step)")
     rep.rule("Y6-emit-before-reschedule", "an emitting action hands its element downstream before it schedules its own next step", floor=2)
     from ..model import is_schedule_call as _isc_
     for rel_ in ("range.py", "generate.py", "generatewithrelativetime.py", "repeat.py", "timer.py"):
